@@ -301,4 +301,4 @@ func (r *rows) Next(dest []driver.Value) error {
 }
 
 // ErrInjected is the default injected error.
-var ErrInjected = fmt.Errorf("verif: injected driver fault")
+var ErrInjected = fmt.Errorf("database is locked (verif: injected driver fault)") // worded like SQLite's busy error: code that matches on the text sees a lock error
